@@ -91,7 +91,8 @@ WellFormed(t) ==
        [] t.n \in {"While"} -> Arity(t) = 2 /\ t.c[2].n = "Block" /\ Arity(t.c[2]) >= 1
        [] t.n = "Iter" -> Arity(t) = 3 /\ Arity(t.c[3]) >= 1
        [] t.n \in {"Func", "Getter", "Ctor"} -> Arity(t) = 2 /\ t.c[1].n = "ID" /\ t.c[2].n = "Exec"
-       [] t.n = "Exec" -> Arity(t) = 3
+                                                /\ Arity(t.c[2]) = 3 /\ Arity(t.c[2].c[2]) + Arity(t.c[2].c[3]) >= 1      \* a definition has a body
+       [] t.n = "Exec" -> Arity(t) = 3 /\ (Arity(t.c[1]) >= 1 => Arity(t.c[2]) + Arity(t.c[3]) >= 1)   \* inputs are followed by statements
        [] t.n = "Catch" -> Arity(t) = 2 /\ Arity(t.c[2]) >= 1
        [] t.n = "Pair" -> Arity(t) = 2 /\ Arity(t.c[1]) >= 1
        [] t.n = "Return" -> Arity(t) = 1
@@ -216,7 +217,13 @@ Place == /\ i <= Len(toks)
                    ELSE IF toks[i].t = "kw" /\ toks[i].v \in {"IF", "ELIF", "ELSE", "WHILE", "ITER", "WITH", "CATCH", "DEF", "HOW", "GETTER"} THEN TRUE ELSE hdr
          /\ i' = i + 1
          /\ UNCHANGED <<prog, toks, unit, eol>>
-Next == Place
+\* corruption by whole lines (Mutate only): the line that starts at this line-break token is dropped - all tokens up to the
+\* next line-break token (a statement line, an 输入 line, a header line ...) disappear from the text
+NextNl(j) == LET N == {q \in j + 1..Len(toks) : toks[q].t = "nl"} IN IF N = {} THEN Len(toks) + 1 ELSE CHOOSE q \in N : \A r \in N : q <= r
+DropLine == /\ Mutate /\ i <= Len(toks) /\ toks[i].t = "nl" /\ dev < MaxDev
+            /\ dev' = dev + 1 /\ i' = NextNl(i) /\ hdr' = FALSE
+            /\ UNCHANGED <<prog, toks, out, unit, eol, depthB>>
+Next == Place \/ DropLine
 Done == i = Len(toks) + 1
 \* design checks: the tree the grammar prescribes is complete, and independent of the layout (it is a function of prog only)
 TreeComplete == WellFormed(Tree(prog))
